@@ -172,6 +172,26 @@ fn ops<D: Dom, V: VecN<D, N> + MaybeNeg, const N: usize>(ctx: &mut Ctx, u: [D; N
     cmp::<D, N>(ctx, "iter_sum", list.iter().copied().sum::<V>().arr(), msum3);
 }
 
+/// values no detour through another number type survives: integers whose pairwise products need (nearly) the full
+/// width of the type - beyond what f64 (or, for 32-bit types, f32) holds exactly; non-dyadic fractions elsewhere
+fn wide<D: Dom>(n: usize, variant: usize) -> Vec<R> {
+    let half_bits: i64 = match D::NAME {
+        "i8" | "u8" => 3,
+        "i16" | "u16" => 6,
+        "i32" | "u32" => 13,
+        "i64" | "u64" | "isize" | "usize" => 28,
+        _ => 0,
+    };
+    if D::INTEGER {
+        let b = 1i64 << half_bits;
+        let pool: [i64; 7] = [b + 1, -(b + 3), b - 1, -(b - 3), b / 2 + 1, -(b / 2 + 3), b + 5];
+        (0..n).map(|i| { let x = pool[(i * (variant + 2) + variant) % 7]; (if D::SIGNED { x } else { x.abs() }, 1) }).collect()
+    } else {
+        let dens: [i64; 5] = [3, 7, 9, 11, 13];
+        alphabet::generic(n, variant).iter().enumerate().map(|(i, r)| (r.0, r.1 * dens[(i + variant) % 5])).collect()
+    }
+}
+
 fn pairs<D: Dom, V: VecN<D, N> + MaybeNeg + for<'a> std::iter::Sum<&'a V>, const N: usize>(rep: &mut Report) {
     let l = letters::<D>();
     // (1) all pairs over the 0/+-1 (0/1 for unsigned) alphabet with scalar from {1, 2}
@@ -192,16 +212,22 @@ fn pairs<D: Dom, V: VecN<D, N> + MaybeNeg + for<'a> std::iter::Sum<&'a V>, const
         &format!("pairs/{}", V::NAME),
         D::NAME,
         &format!(
-            "all (u,v) over {} letters^{} x 2 scalars; 3 bases x <= {k} deviations over {} letters in {slots} slots{}",
+            "all (u,v) over {} letters^{} x 2 scalars; 3 bases x <= {k} deviations over {} letters in {slots} slots; 6 pairs of wide integers (products beyond 2^53) resp. non-dyadic fractions{}",
             a0.len(),
             2 * N,
             l.len(),
             if n3 > 0 { format!("; full product {}^{} x 3 scalars", l.len(), 2 * N) } else { String::new() }
         ),
-        n1 + n2 + n3,
+        n1 + n2 + n3 + 6,
         Guard::states(20).distinct(10),
         |i, ctx| {
-            let r: Vec<R> = if i < n1 {
+            let r: Vec<R> = if i >= n1 + n2 + n3 {
+                // (4) six operand pairs of wide integers / non-dyadic fractions (results that do not fit are not judged)
+                let j = i - n1 - n2 - n3;
+                let mut r = wide::<D>(2 * N, j);
+                r.push([(1, 1), (2, 1), (3, 1)][j % 3]);
+                r
+            } else if i < n1 {
                 let d = alphabet::decode(i, &dims);
                 let mut r: Vec<R> = d[..2 * N].iter().map(|&j| a0[j]).collect();
                 r.push([(1, 1), (2, 1)][d[2 * N]]);
@@ -296,11 +322,13 @@ where
     rep.cases(
         "cross/Vector3",
         D::NAME,
-        &format!("all triples over {}^9; 3 bases x <= {k} deviations over {} letters", a0.len(), l.len()),
-        n_full + 3 * dev.len(),
+        &format!("all triples over {}^9; 3 bases x <= {k} deviations over {} letters; 6 triples of wide integers resp. non-dyadic fractions", a0.len(), l.len()),
+        n_full + 3 * dev.len() + 6,
         Guard::states(1000).distinct(100),
         |i, ctx| {
-            let r: Vec<R> = if i < n_full {
+            let r: Vec<R> = if i >= n_full + 3 * dev.len() {
+                wide::<D>(9, i - n_full - 3 * dev.len())
+            } else if i < n_full {
                 alphabet::decode(i, &dims).iter().map(|&j| a0[j]).collect()
             } else {
                 let j = i - n_full;
@@ -346,11 +374,12 @@ fn perp2<D: Dom>(rep: &mut Report) {
     rep.cases(
         "perp_dot/Vector2",
         D::NAME,
-        &format!("all pairs over {}^4", l.len()),
-        alphabet::product_len(&dims),
+        &format!("all pairs over {}^4; 6 pairs of wide integers resp. non-dyadic fractions", l.len()),
+        alphabet::product_len(&dims) + 6,
         Guard::states(100).distinct(20),
         |i, ctx| {
-            let r: Vec<R> = alphabet::decode(i, &dims).iter().map(|&j| l[j]).collect();
+            let nfull = alphabet::product_len(&dims);
+            let r: Vec<R> = if i >= nfull { wide::<D>(4, i - nfull) } else { alphabet::decode(i, &dims).iter().map(|&j| l[j]).collect() };
             let u: [D; 2] = vec_from_r(&r[..2]);
             let v: [D; 2] = vec_from_r(&r[2..]);
             ctx.describe(|| format!("Vector2<{}> u={:?} v={:?}", D::NAME, u, v));
